@@ -20,7 +20,7 @@ func init() {
 			"model-free relations on library results only: ancestor/descendant/following/preceding/self partition of all tree nodes, the four dual pairs over all node pairs, root has no parent/siblings, top-level children's sibling axes, ancestor reaches root. " +
 			"distinct_nontrivial = distinct (document shape, context kind, axis, test class) whose expected set is non-empty and not the whole document",
 		Assumptions: []string{"name tests on the namespace axis are outside the statement and not generated", "absolute paths are only evaluated with the root cursor as starting node", "attribute / namespace-node order inside one element is taken from the store"},
-		NCases:      func(tier string) int { return map[string]int{"quick": 160, "thorough": 4000}[tier] },
+		NCases:      func(tier string) int { return map[string]int{"quick": 800, "thorough": 30000}[tier] },
 		Case:        c01Case,
 	})
 }
@@ -46,6 +46,8 @@ func c01Tests(d *adoc.Doc, axis string) []xast.Test {
 			ts = append(ts, xast.Test{Kind: xast.TLocalAny, Local: q.Local})
 		}
 	}
+	// unprefixed names that spell a bound prefix (the namespace-axis URI rule must not leak onto other axes)
+	ts = append(ts, xast.Test{Kind: xast.TName, Local: "p"}, xast.Test{Kind: xast.TName, Local: "q"}, xast.Test{Kind: xast.TName, Local: "xml"})
 	ts = append(ts, xast.Test{Kind: xast.TName, Local: "absent"}, xast.Test{Kind: xast.TName, Prefix: "p", Local: "absent"},
 		xast.Test{Kind: xast.TNSAny, Prefix: "p"}, xast.Test{Kind: xast.TNSAny, Prefix: "q"})
 	return ts
